@@ -12,7 +12,7 @@ import fasteners
 import threading
 import os.path
 from watchdog.events import FileSystemEventHandler
-from typing import Dict
+from typing import Dict, Set
 from experimaestro.launcherfinder.base import TokenConfiguration
 
 from experimaestro.launcherfinder.registry import LauncherRegistry
@@ -243,6 +243,9 @@ class CounterToken(Token, FileSystemEventHandler):
 
         self.cache: Dict[str, TokenFile] = {}
 
+        # Names of the token files that we hold (from acquire to release)
+        self.own: Set[str] = set()
+
         self.infopath = path / "token.info"
 
         self.ipc_lock = fasteners.InterProcessLock(path / "token.lock")
@@ -328,6 +331,13 @@ class CounterToken(Token, FileSystemEventHandler):
         # Name is in cache if we did not release the token ourselves
         if name in self.cache:
             with self.lock:
+                if name in self.own:
+                    # A token that we hold: the event is a late one about
+                    # the file of the same name that we (or the watcher of
+                    # another scheduler, once the job was over) removed
+                    # before we took the token again -- or the file will be
+                    # found missing when we release
+                    return
                 if name in self.cache:
                     logging.debug("Deleting %s from token cache (event)", name)
                     fc = self.cache[name]
@@ -475,6 +485,7 @@ class CounterToken(Token, FileSystemEventHandler):
             self.available -= dependency.count
 
             self.cache[dependency.name] = TokenFile.create(dependency)
+            self.own.add(dependency.name)
             if _verif.ACTIVE:
                 _verif.emit("tok.acq.ok", name=dependency.name, available=self.available)
             logger.debug(
@@ -490,9 +501,11 @@ class CounterToken(Token, FileSystemEventHandler):
             if _verif.ACTIVE:
                 _verif.emit("tok.rel.lock", name=dependency.name)
             self._update()
+            self.own.discard(dependency.name)
 
             tf = self.cache.get(dependency.name, None)
             if tf is None:
+                # (the count above has taken it into account)
                 logging.error(
                     "Could not find the taken token for %s (%s)",
                     dependency,
@@ -500,15 +513,16 @@ class CounterToken(Token, FileSystemEventHandler):
                 )
                 if _verif.ACTIVE:
                     _verif.emit("tok.rel.missing", name=dependency.name)
-                return
-
-            logging.debug("Deleting %s from token cache", dependency.name)
-            del self.cache[dependency.name]
-            self.available += tf.count
-            logging.debug("%s: available %d", self, self.available)
-            tf.delete()
-            if _verif.ACTIVE:
-                _verif.emit("tok.rel.ok", name=dependency.name, available=self.available)
+            else:
+                logging.debug("Deleting %s from token cache", dependency.name)
+                del self.cache[dependency.name]
+                self.available += tf.count
+                logging.debug("%s: available %d", self, self.available)
+                tf.delete()
+                if _verif.ACTIVE:
+                    _verif.emit(
+                        "tok.rel.ok", name=dependency.name, available=self.available
+                    )
 
         self.aio_notify()
 
